@@ -38,15 +38,10 @@ structure WF (w : World) : Prop where
   root_lt : ∀ i ∈ w.rootIds, i < w.next
   iso : ∀ i ∈ w.rootIds, i ∈ w.env.declIds → i ∈ w.env.leak
 
-/-- a caller-made in-place change that inserts atoms only (`l.append(9)`, `s.add(9)`, `d['k'] = 9`) -/
-def Act.atomic : Act → Prop
-  | .append v => v.mutIds = []
-  | .add v => v.mutIds = []
-  | .setkey _ v => v.mutIds = []
-
 /-- what a caller may do next: parse an input it built from new objects and from live objects (never the
-declared default objects themselves); change an object it reaches through a root; assign an atom to a
-field; copy an instance -/
+declared default objects themselves); change an object it reaches through a root — append / add / store an atom or
+another object it reaches through a root, clear, pop, delete a key —; assign an atom to a field; copy an instance;
+read an attribute -/
 def Op.Valid (w : World) : Op → Prop
   | .call _ _ bump input ro =>
       (∀ i ∈ input.mutIds, i < w.next + bump) ∧ (∀ i ∈ input.mutIds, i ∈ w.env.declIds → i ∈ w.env.leak)
@@ -55,9 +50,10 @@ def Op.Valid (w : World) : Op → Prop
       -- the new declaration's default objects are new objects — or, for the fields a subclass takes over from its
       -- base, the base's own default objects —, in the property's scope
       (∀ i ∈ Env.declIds [d], (w.next ≤ i ∧ i < w.next + bump) ∨ i ∈ w.env.declIds) ∧ Env.leak [d] = []
-  | .mutate i act => i ∈ w.rootIds ∧ act.atomic
+  | .mutate i act => i ∈ w.rootIds ∧ ∀ j ∈ act.ids, j ∈ w.rootIds
   | .setattr _ _ v => v.mutIds = []
   | .copy _ => True
+  | .getattr _ _ => True
 
 def ValidHist : World → List Op → Prop
   | _, [] => True
@@ -312,6 +308,18 @@ theorem WF_push_none (w : World) (hw : WF w) (n' : Nat) (hn : w.next ≤ n') :
 
 /-- a caller's write with atoms, to an object that is no declared default object, keeps the world
 well-formed and leaves the declarations alone -/
+theorem writeAll_WF' (S : List Nat) (w : World) (hw : WF w) (i : Nat)
+    (f : Kind → List String → List Val → Option (List String × List Val))
+    (hi : i ∉ w.env.declIds) (hf : AddsOnly S f) (hS : ∀ j ∈ S, j ∈ w.rootIds) :
+    WF (w.writeAll i f) ∧ (w.writeAll i f).env = w.env ∧ (∀ j ∈ (w.writeAll i f).rootIds, j ∈ w.rootIds) := by
+  have henv := writeAll_env_eq w i f hi
+  have hsub : ∀ j ∈ (w.writeAll i f).rootIds, j ∈ w.rootIds := fun j hj =>
+    (writeAll_rootIds_sub' S w i f hf j hj).elim id (hS j)
+  refine ⟨⟨fun j hj => ?_, fun j hj => ?_, fun j hj hd => ?_⟩, henv, hsub⟩
+  · rw [henv] at hj; exact hw.decl_lt j hj
+  · exact hw.root_lt j (hsub j hj)
+  · rw [henv] at hd ⊢; exact hw.iso j (hsub j hj) hd
+
 theorem writeAll_WF (w : World) (hw : WF w) (i : Nat) (f : Kind → List String → List Val → Option (List String × List Val))
     (hi : i ∉ w.env.declIds) (hf : AddsNoIds f) :
     WF (w.writeAll i f) ∧ (w.writeAll i f).env = w.env ∧ (∀ j ∈ (w.writeAll i f).rootIds, j ∈ w.rootIds) := by
@@ -380,6 +388,69 @@ theorem leak_append (E E' : Env) : Env.leak (E ++ E') = E.leak ++ Env.leak E' :=
 theorem step_declare (w : World) (d : Decl) (bump : Nat) :
     w.step (.declare d bump) = ({ w with env := w.env ++ [d], next := w.next + bump }, Outcome.ok) := rfl
 
+theorem readAttr_ids (b : Bool) (fname : String) (j : Nat) (k : Kind) (ks : List String) (xs : List Val) (v : Val)
+    (h : readAttr b fname ks xs = some v) : ∀ i ∈ v.mutIds, i ∈ (Val.node j k ks xs).mutIds := by
+  intro i hi
+  apply mutIdsL_sub_node
+  unfold readAttr at h
+  split at h
+  · rename_i v' hv'
+    cases h
+    split at hv'
+    · have hm := lookupKV_mem _ _ _ _ hv'
+      exact mem_mutIdsL.mpr ⟨v, List.mem_of_mem_drop hm, hi⟩
+    · cases hv'
+  · split at h
+    · rename_i a aks avs rest
+      have hm := lookupKV_mem _ _ _ _ h
+      simp only [mutIdsL, List.mem_append]
+      exact Or.inl (mutIdsL_sub_node (mem_mutIdsL.mpr ⟨v, hm, hi⟩))
+    · cases h
+
+theorem step_getattr (w : World) (r : Nat) (fname : String) : w.step (.getattr r fname) = w.getattr r fname := rfl
+
+/-- reading an attribute hands out an object the instance holds, or a fresh copy of a deferred default -/
+theorem getattr_WF (w : World) (hw : WF w) (hs : InScope w.env) (r : Nat) (fname : String) :
+    WF (w.getattr r fname).1 ∧ (w.getattr r fname).1.env = w.env ∧ (w.getattr r fname).1.proc = w.proc := by
+  have hfail : WF ({ w with roots := w.roots ++ [none] } : World) := WF_push_none w hw w.next (Nat.le_refl _)
+  unfold World.getattr
+  simp only
+  split
+  · rename_i j k b ks xs hroot
+    have hmem := root_mem w r _ hroot
+    split
+    · exact ⟨hfail, rfl, rfl⟩
+    · rename_i d hd
+      split
+      · exact ⟨hfail, rfl, rfl⟩
+      · rename_i f hf
+        split
+        · rename_i v hv
+          refine ⟨WF_push w hw w.next (Nat.le_refl _) v (fun i hi => ?_) (fun i hi hdcl => ?_), rfl, rfl⟩
+          · exact hw.root_lt i (rootIds_of_root hmem i (readAttr_ids b fname j _ ks xs v hv i hi))
+          · exact hw.iso i (rootIds_of_root hmem i (readAttr_ids b fname j _ ks xs v hv i hi)) hdcl
+        · split
+          · have hfr := getDefaultAt_fr true f.defer {} f.dflt { next := w.next }
+            have hfm : f ∈ d.fields := List.mem_of_find?_eq_some hf
+            have hleak : ∀ i ∈ f.dflt.opqIds ++ ({} : ROpts).opqIds, False := by
+              intro i hi
+              simp only [ROpts.opqIds, List.append_nil] at hi
+              have := leak_of_field hd f hfm i hi
+              rw [hs] at this; cases this
+            split
+            · rename_i v s1 hg
+              rw [hg] at hfr
+              refine ⟨WF_push w hw s1.next hfr.mono v (fun i hi => ?_) (fun i hi hdcl => ?_), rfl, rfl⟩
+              · rcases hfr.out i (by simpa [optIds] using hi) with h | h
+                · exact (hleak i h).elim
+                · exact h.2
+              · rcases hfr.out i (by simpa [optIds] using hi) with h | h
+                · exact (hleak i h).elim
+                · have := hw.decl_lt i hdcl; simp at h; omega
+            · exact ⟨hfail, rfl, rfl⟩
+          · exact ⟨hfail, rfl, rfl⟩
+  · exact ⟨hfail, rfl, rfl⟩
+
 /-- every step of a valid history keeps the world well-formed; the declarations made so far stay exactly
 what they were (a `declare` appends one, nothing else touches `env`) -/
 theorem step_WF (w : World) (hw : WF w) (hs : InScope w.env) (op : Op) (hv : op.Valid w) :
@@ -435,8 +506,7 @@ theorem step_WF (w : World) (hw : WF w) (hs : InScope w.env) (op : Op) (hv : op.
           · have := hw.decl_lt i hd; omega
   | mutate i act =>
     obtain ⟨hi, ha⟩ := hv
-    have hf : AddsNoIds act.apply := act_addsNoIds act (by cases act <;> exact ha)
-    obtain ⟨h1, h2, _⟩ := writeAll_WF w hw i act.apply (hnotdecl i hi) hf
+    obtain ⟨h1, h2, _⟩ := writeAll_WF' act.ids w hw i act.apply (hnotdecl i hi) (act_addsOnly act) ha
     exact ⟨h1, Or.inl h2⟩
   | setattr r fname v =>
     have hv' : v.mutIds = [] := hv
@@ -491,6 +561,11 @@ theorem step_WF (w : World) (hw : WF w) (hs : InScope w.env) (op : Op) (hv : op.
           · rcases hfr.out i hi with h | h
             · exact hw.iso i (rootIds_of_root hmem i h) hd
             · have := hw.decl_lt i hd; simp only at h; omega
+
+  | getattr r fname =>
+    rw [step_getattr]
+    obtain ⟨h1, h2, _⟩ := getattr_WF w hw hs r fname
+    exact ⟨h1, Or.inl h2⟩
 
 /-- **No cross-call state through the declarations.**  Along every valid history — parses that succeed
 or fail (under any running options), the caller changing objects it reaches through results, assigning
@@ -621,6 +696,12 @@ theorem step_proc_eq (w : World) (op : Op) (h : ∀ t wr b i ro, op ≠ .call t 
     split
     · split <;> rfl
     · rfl
+  | getattr r fname =>
+    rw [step_getattr]
+    unfold World.getattr
+    simp only
+    repeat' split
+    all_goals rfl
 
 /-- the process state stays within the invariant along every step (declaring more classes included) -/
 theorem step_procOK (w : World) (hw : WF w) (hs : InScope w.env) (h : ProcOK w) (op : Op) (hv : op.Valid w) :
@@ -642,6 +723,7 @@ theorem step_procOK (w : World) (hw : WF w) (hs : InScope w.env) (h : ProcOK w) 
   | mutate i act => exact procOK_of_ext h (step_proc_eq w _ (by intros; simp)) hext
   | setattr r fname v => exact procOK_of_ext h (step_proc_eq w _ (by intros; simp)) hext
   | copy r => exact procOK_of_ext h (step_proc_eq w _ (by intros; simp)) hext
+  | getattr r f => exact procOK_of_ext h (step_proc_eq w _ (by intros; simp)) hext
 
 /-- along every valid history: declarations only grow at the end, the world stays well-formed and in scope
 (`C19_history_preserves_declaration`), and the process state stays within its invariant -/
@@ -897,9 +979,6 @@ def hist0 : List Op :=
 
 example : InScope env0 := by unfold InScope; decide
 example : (w0.run hist0).2 = [.ok, .perr, .ok, .ok] := by decide +kernel
-
-instance (act : Act) : Decidable act.atomic := by
-  cases act <;> unfold Act.atomic <;> infer_instance
 
 instance (w : World) (op : Op) : Decidable (op.Valid w) := by
   cases op <;> unfold Op.Valid <;> infer_instance
